@@ -472,6 +472,19 @@ theorem capture_not_recorded (v : Console.Variant) (cfg : Config) (env : StyleEn
   unfold checkBuffer
   simp [h0, renderBuffer, hv, hr, hrec]
 
+/-! ## several consoles -/
+
+/-- **consoles_do_not_interfere.**  Any number of consoles alive together — each with its own configuration (colour
+system, terminal or not, recording or not, …) and style table — and any interleaving of operations addressed to them:
+every console ends in exactly the state (record, file, buffer, capture depth), and receives exactly the answers
+(exports, captures), of its own operations run alone.  So every theorem above holds per console in the presence of the
+others: a clear on one console cannot empty another's record, a print on one cannot change another's export. -/
+theorem consoles_do_not_interfere (v : Console.Variant) (cfgs : Nat → Config) (envs : Nat → StyleEnv σ)
+    (sched : List (Nat × Op σ)) (sts : Nat → State σ) (k : Nat) :
+    (multiRun v cfgs envs sched sts).1 k = (run v (cfgs k) (envs k) (projOps k sched) (sts k)).1 ∧
+    projOuts k (multiRun v cfgs envs sched sts).2 = (run v (cfgs k) (envs k) (projOps k sched) (sts k)).2 :=
+  multiRun_proj v cfgs envs sched sts k
+
 /-! ## the strings printed -/
 
 /-- **print_plain_segments** (rich's cell widths, console width ≥ 2, tab size ≥ 1).  For
@@ -626,6 +639,13 @@ example :
       | _ => []) = "ab \ncd \ne\n".toList ∧
     ConsolePrint.wrappedText C13.cw 8 3 { strs := ["ab cd".toList, "e".toList] } = "ab \ncd \ne\n".toList := by
   decide +kernel
+/-- two consoles: a clearing export on console 1 leaves console 0's record alone -/
+example :
+    let sched : List (Nat × Op Nat) := [(0, .print [{ text := ['a'], style := none }]), (1, .print [{ text := ['b'], style := none }]),
+      (1, .exportText true false), (0, .exportText false false)]
+    projOuts 0 (multiRun Console.Variant.repaired (fun _ => wCfg) (fun _ => wEnv) sched (fun _ => {})).2 = [.none, .exported ['a']] ∧
+    projOuts 1 (multiRun Console.Variant.repaired (fun _ => wCfg) (fun _ => wEnv) sched (fun _ => {})).2 = [.none, .exported ['b']] := by
+  decide
 example : isClearing (σ := Nat) (.exportText true false) = true := rfl
 example : ({} : State Nat).index = 0 ∧ ({} : State Nat).buffer = [] := ⟨rfl, rfl⟩
 example : unescape "&amp;lt;&lt;&gt;&".toList = "&lt;<>&".toList := by decide
